@@ -450,8 +450,12 @@ def run(ctx):
         A = ((A + extra + extra.T) > 0).astype(np.int8)
         np.fill_diagonal(A, 0)
         w = G.pos_weights(r, n0)
+        # (the ARPACK eigenvector is compared with a tolerance that assumes
+        #  the spectral gap of small dense graphs; sparse graphs of this size
+        #  have a much smaller gap, so it is left to the other families)
         meas = [x for x in NET if "arenas" not in x[0]
-                and "newman" not in x[0] and "key" not in x[1]]
+                and "newman" not in x[0] and "key" not in x[1]
+                and "eigenvector" not in x[0]]
         ctx.count("power_of_two_sizes")
         with ctx.guard(600):
             for v in (n0 - 1, int(r.integers(0, n0))):
